@@ -20,7 +20,7 @@ CLUSTER_LISTS = [[], [0], [1, 0], [0, 7]]
 
 
 def imports():
-    core.import_phylib('phylib.io.array')
+    core.import_phylib('phylib.io.array', 'phylib.io.model')
 
 
 class OwnedChoice(object):
@@ -90,7 +90,7 @@ def run_case(case, acc, order):
             for count in COUNTS:
                 for clist in CLUSTER_LISTS:
                     for sub_chunks in (False, True):
-                        for subset in (None, [i for i in range(n) if i % 2 == 0]):
+                        for subset in (None, [i for i in range(n) if i % 2 == 0], []):
                             opi += 1
                             if only is not None and only != opi:
                                 continue
@@ -199,8 +199,13 @@ def explore(ctx):
         cases = [c for i, c in enumerate(cases) if len(c['times']) <= 3 or (i + ctx.seed) % 3 == 0]
         ctx.notes['quick_slice'] = 'all configurations with <= 3 spikes; every third (by seed) with 4'
     ctx.run_cases(run_case, cases, sweep='selector')
+    from . import c17_model
+    c17_model.explore(ctx)
 
 
 def replay(record):
     imports()
+    if 'n_chunks' in (record.get('case') or {}):
+        from . import c17_model
+        return c17_model.replay(record)
     return core.replay_case(run_case, record)
